@@ -47,6 +47,26 @@ def family(tier, rnd):
                             p["eol"] = eol
                             p["tag"] += "/%s/%s/%s" % (prek, eol or "lf", "hist" if hist else "nohist")
                             P.append(p)
+    # faults in expression positions, and faults raised INSIDE a handler block (rethrow / built-in fault): the report
+    # ends at the handler's own line, below the frame whose call raised the handled exception
+    for depth in (0, 1, 2):
+        for rk in ("thr", "idx", "undef"):
+            for sw in EXPR_SITES:
+                if depth == 0 and sw == "ret-value": continue
+                if tier == "quick" and rnd.random() > 0.5: continue
+                p = chain_prog(depth, rk, sw, ["none"] * (depth + 1), "ret", followups=False, pre=PRE[rnd.choice(list(PRE))])
+                p["eol"] = rnd.choice(["", "crlf", "cr"]); p["tag"] += "/expr-site/%s" % (p["eol"] or "lf")
+                P.append(p)
+    for depth in (1, 2, 3):
+        for rk in ("thr", "idx", "cust"):
+            for sw in ("plain", "initer"):
+                for he in ("rethrow", "fault"):
+                    for lvl in range(0, depth + 1):
+                        if tier == "quick" and rnd.random() > 0.6: continue
+                        hks = ["none"] * (depth + 1); hks[lvl] = "match"
+                        p = chain_prog(depth, rk, sw, hks, he, followups=False, pre=PRE[rnd.choice(list(PRE))])
+                        p["eol"] = rnd.choice(["", "crlf"]); p["tag"] += "/in-handler/%s" % (p["eol"] or "lf")
+                        P.append(p)
     return P
 
 
